@@ -376,6 +376,20 @@ func (kid SubjAuthKeyId) MarshalJSON() ([]byte, error) {
 	return json.Marshal(enc)
 }
 
+// UnmarshalJSON reads the hex string written by MarshalJSON.
+func (kid *SubjAuthKeyId) UnmarshalJSON(b []byte) error {
+	var s string
+	if err := json.Unmarshal(b, &s); err != nil {
+		return err
+	}
+	raw, err := hex.DecodeString(s)
+	if err != nil {
+		return err
+	}
+	*kid = raw
+	return nil
+}
+
 type ExtendedKeyUsage []ExtKeyUsage
 
 type ExtendedKeyUsageExtension struct {
